@@ -301,7 +301,7 @@ impl Scenario for Events {
         let mut any_fault = false;
         let mut last_t = 0u64;
         // bookkeeping for ordering probes and fault accounting (model side only)
-        let mut down_model = [false; NKEYS];
+        let mut down_model = [false; NKEYS + 1];
         let mut since_press_setctrl = false;
         let mut since_press_layout = false;
         let mut since_press_mod = false;
@@ -337,7 +337,7 @@ impl Scenario for Events {
                     env.cov.api_calls += 1;
                     mode = map;
                     since_press_setctrl = true;
-                    if down_model.iter().enumerate().any(|(j, d)| *d && !is_mod_key(ALL_KEYS[j])) {
+                    if down_model.iter().enumerate().any(|(j, d)| *d && (j >= NKEYS || !is_mod_key(ALL_KEYS[j]))) {
                         env.cov.probe("setctrl_while_ordinary_key_held");
                     }
                 }
@@ -347,7 +347,7 @@ impl Scenario for Events {
                         env.cov.api_calls += 1;
                         rec_id = id;
                         since_press_layout = true;
-                        if down_model.iter().enumerate().any(|(j, d)| *d && !is_mod_key(ALL_KEYS[j])) {
+                        if down_model.iter().enumerate().any(|(j, d)| *d && (j >= NKEYS || !is_mod_key(ALL_KEYS[j]))) {
                             env.cov.probe("layout_change_while_ordinary_key_held");
                         }
                     }
@@ -412,7 +412,7 @@ impl Scenario for Events {
                 }
             }
             if let Some((k, s, _via_queue)) = event {
-                let ki = kidx(k).min(NKEYS - 1);
+                let ki = kidx(k); // NKEYS = a key this harness does not know (no coverage cell)
                 let live_before: Modifiers = if c14 { sut.mods().unwrap_or_else(|| twin.get_modifiers().clone()) } else { refm.clone() };
                 let before = refm.clone(); // model side: used for coverage cells and probes only
                 let _ = &live_before;
@@ -455,9 +455,11 @@ impl Scenario for Events {
                 h.mix((ki as u64) << 2 | sidx(s) as u64);
                 h.mix(decoded_hash(&r));
                 h.mix(mods_index(&refm) as u64);
-                let cell = ((mods_index(&before) * 2 + mode as usize) * NKEYS + ki) * 3 + sidx(s);
-                env.cov.hit("transitions_mods_x_mode_x_key_x_state", cell);
-                env.cov.hit("inputs_key_x_state", ki * 3 + sidx(s));
+                if ki < NKEYS {
+                    let cell = ((mods_index(&before) * 2 + mode as usize) * NKEYS + ki) * 3 + sidx(s);
+                    env.cov.hit("transitions_mods_x_mode_x_key_x_state", cell);
+                    env.cov.hit("inputs_key_x_state", ki * 3 + sidx(s));
+                }
                 env.cov.hit("modifier_states_visited", mods_index(&refm));
                 if let Some(mi) = MOD_KEYS.iter().position(|m| *m == k) {
                     if s != KeyState::SingleShot {
